@@ -8,6 +8,8 @@ f31_0:
   call f15_2
   call f18_0
   call f17_2
+  mov wvsv0@GOTPCREL(%rip),%rax
+  mov wvsv1@GOTPCREL(%rip),%rax
   ret
 .section .text.f31_1,"ax",@progbits
 .globl f31_1
@@ -16,6 +18,7 @@ f31_1:
   ret
   call f21_0
   call f12_2
+  mov wvsv0@GOTPCREL(%rip),%rax
   ret
 .section .text.f31_2,"ax",@progbits
 .globl f31_2
@@ -24,6 +27,7 @@ f31_2:
   ret
   call f7_0
   lea d_f31_2(%rip),%rax
+  mov wvsv1(%rip),%rax
   ret
 .section .data.d_f31_2,"aw",@progbits
 .globl d_f31_2
